@@ -142,6 +142,11 @@ pub fn build(
         last_field = value.checked_add(1);
     }
 
+    // `#[repr(<int>)]` is not allowed on an enum without cases
+    if fields.is_empty() {
+        anyhow::bail!("enum `{resolvee_path}` has no cases");
+    }
+
     let mut singleton = None;
     let mut copyable = false;
     let mut cloneable = false;
